@@ -56,6 +56,11 @@ func NewContext(blockTime time.Time) context.Context           { panic("nd") }
 func EventMark() int                      { panic("nd") }
 func SameEvents(a0, a1, b0, b1 int) bool { panic("nd") }
 
+// StoreBranch / StoreDiscard model a branched (cache) context that is thrown away: all store writes and
+// events since the branch are undone; process memory (ordinary Go values) is left as it is.
+func StoreBranch()  { panic("nd") }
+func StoreDiscard() { panic("nd") }
+
 // Z is a ghost (specification-side) unbounded integer.
 type Z struct{ _ int }
 
